@@ -2551,21 +2551,26 @@ fn build_agg_array(
             DataType::Float64 => {
                 let mut builder = Float64Builder::with_capacity(num_groups);
                 for states in groups.values() {
-                    let sum: f64 = states[agg_idx]
+                    // SUM over no non-NULL value is NULL, not 0.
+                    let values: Vec<f64> = states[agg_idx]
                         .distinct_set
                         .as_ref()
                         .map(|s| {
                             s.iter()
-                                .map(|v| match v {
-                                    GroupValue::Float64(x) => x.into_inner(),
-                                    GroupValue::Int64(x) => *x as f64,
-                                    GroupValue::Date32(x) => *x as f64,
-                                    _ => 0.0,
+                                .filter_map(|v| match v {
+                                    GroupValue::Float64(x) => Some(x.into_inner()),
+                                    GroupValue::Int64(x) => Some(*x as f64),
+                                    GroupValue::Date32(x) => Some(*x as f64),
+                                    _ => None,
                                 })
-                                .sum()
+                                .collect()
                         })
-                        .unwrap_or(0.0);
-                    builder.append_value(sum);
+                        .unwrap_or_default();
+                    if values.is_empty() {
+                        builder.append_null();
+                    } else {
+                        builder.append_value(values.iter().sum());
+                    }
                 }
                 return Ok(Arc::new(builder.finish()));
             }
@@ -2573,21 +2578,25 @@ fn build_agg_array(
                 // Int64 and other integer types
                 let mut builder = Int64Builder::with_capacity(num_groups);
                 for states in groups.values() {
-                    let sum: i64 = states[agg_idx]
+                    let values: Vec<i64> = states[agg_idx]
                         .distinct_set
                         .as_ref()
                         .map(|s| {
                             s.iter()
-                                .map(|v| match v {
-                                    GroupValue::Int64(x) => *x,
-                                    GroupValue::Date32(x) => *x as i64,
-                                    GroupValue::Float64(x) => x.into_inner() as i64,
-                                    _ => 0,
+                                .filter_map(|v| match v {
+                                    GroupValue::Int64(x) => Some(*x),
+                                    GroupValue::Date32(x) => Some(*x as i64),
+                                    GroupValue::Float64(x) => Some(x.into_inner() as i64),
+                                    _ => None,
                                 })
-                                .sum()
+                                .collect()
                         })
-                        .unwrap_or(0);
-                    builder.append_value(sum);
+                        .unwrap_or_default();
+                    if values.is_empty() {
+                        builder.append_null();
+                    } else {
+                        builder.append_value(values.iter().sum());
+                    }
                 }
                 return Ok(Arc::new(builder.finish()));
             }
